@@ -111,6 +111,32 @@ CLAIMED.update({
         "design": "DESIGN.md section 3 C10",
     },
 })
+CLAIMED.update({
+    "C08": {
+        "text": "Contract-based deductive proof of _make_tmp, atomic_write_bytes (Path and str destinations, KeyboardInterrupt and short-write "
+                "variants), atomic_replace (retry loop with an unbounded invariant), atomic_write_text/json over an abstract file system in "
+                "which every I/O primitive forks into a failing path: the crash invariant content(final) in {old, complete new} is proved at "
+                "entry and after every effect (including a write killed half way), the only writer of final is os.replace(tmp, final), on "
+                "normal exit final == new and no temp is left, every new file other than final is one of the call's own temps, whose names "
+                "(lemma, z3 strings) never look like snapshot or log files; callers reach their destination only through atomic_write_*.",
+        "note": "The file system is a trusted model (pyvc/fsmodel.py): os.replace atomic and all-or-nothing, raw write all-or-error unless the "
+                "short_write option is on, buffered handles complete-or-raise. Durability after power loss, directories/permissions/symlinks "
+                "and real concurrent readers are not modelled. Preconditions: tmp != final, retries >= 1, backoff_ms >= 0.",
+        "design": "DESIGN.md section 3 C08",
+    },
+    "C16": {
+        "text": "Contract-based deductive proof of normalize_for_identity (only the documented volatile keys of the identity streams change, "
+                "input not mutated, idempotent), LogStager (bytes = sum of estimates, back-pressure iff buffered and over the limit, sorted "
+                "drain, drain-then-stage never raises for any byte limit), default_key_for, _append_jsonl_unbuffered (one 'ab' open, one "
+                "write of one LF-terminated line), append_jsonl / LogMux / flush (captured xor written, in order), rewrite_jsonl (line i = "
+                "canonical dump of record i through atomic_write_text), rotate_one (generations shift by one, only the oldest dropped, also "
+                "when a rename fails).",
+        "note": "json.dumps is an uninterpreted function with the trusted fact 'no raw LF/CR in the output'; bytes are modelled as text; "
+                "open/write and the rotation name space are small trusted models; O_APPEND atomicity and concurrent writers from several "
+                "processes are assumed, not proved; rotate_one's failure clauses are proved for 1 and 2 kept generations.",
+        "design": "DESIGN.md section 3 C16",
+    },
+})
 PENDING_REASON = "check not built yet (construction in progress, see DESIGN.md section 3)"
 NA = {}
 
